@@ -535,3 +535,60 @@ func countFactor(y ssa.Value, depth int) ssa.Value {
 	}
 	return nil
 }
+
+// padBoundRule: the number of pad symbols, an integer of the document's @counter-style rule, is clamped by a constant
+// before it reaches strings.Repeat (which panics when the output length overflows).
+func padBoundRule(c *core.Check, r *core.Rule) {
+	p := c.Prog
+	fn := p.Method("css/counters", "CounterStyle", "renderValue")
+	if fn == nil {
+		r.Anchor("css/counters.CounterStyle.renderValue")
+		return
+	}
+	n := 0
+	core.Instrs(fn, func(in ssa.Instruction) {
+		call, ok := in.(*ssa.Call)
+		if !ok || call.Call.StaticCallee() == nil || call.Call.StaticCallee().Name() != "Repeat" || len(call.Call.Args) != 2 {
+			return
+		}
+		n++
+		cnt := call.Call.Args[1]
+		bounded, how := false, "the count is not the merge of a constant and a value tested against it"
+		if phi, ok := cnt.(*ssa.Phi); ok {
+			for i, e := range phi.Edges {
+				k, isK := core.ConstInt(e)
+				if !isK || k <= 0 {
+					continue
+				}
+				// the other edges come from a block that tested the value against the constant
+				okAll := true
+				for j, e2 := range phi.Edges {
+					if j == i {
+						continue
+					}
+					pred := phi.Block().Preds[j]
+					ifi, isIf := pred.Instrs[len(pred.Instrs)-1].(*ssa.If)
+					if !isIf {
+						okAll = false
+						continue
+					}
+					cmp, isCmp := ifi.Cond.(*ssa.BinOp)
+					if !isCmp || cmp.X != e2 {
+						okAll = false
+						continue
+					}
+					if kk, isKK := core.ConstInt(cmp.Y); !isKK || kk != k || (cmp.Op != token.GTR && cmp.Op != token.GEQ) || pred.Succs[1] != phi.Block() {
+						okAll = false
+					}
+				}
+				if okAll {
+					bounded, how = true, fmt.Sprintf("clamped at %d", k)
+				}
+			}
+		}
+		r.Cond(bounded, "css/counters.renderValue | strings.Repeat(pad symbol, n)", p.Pos(call.Pos()), how, "the pad length of the document's @counter-style reaches strings.Repeat unbounded ("+how+"): `pad: 9000000000000000000 \"xx\"` panics with an output length overflow")
+	})
+	if n == 0 {
+		r.Anchor("renderValue: strings.Repeat of the pad symbol")
+	}
+}
